@@ -555,3 +555,221 @@ def rule_sh4(ctx):
 
 
 rule_sh1.fatal_unsupported = True
+
+
+# ---------------------------------------------------------------------------
+# SH5: hyperbolic objects interpreted end to end
+
+HYP_UNITS = {"Point": 1, "IdealPoint": 1, "DualPoint": 1, "Geodesic": 2,
+             "Segment": 2, "Subspace": 2, "Hyperplane": 2,
+             "TangentVector": 2, "Isometry": 2, "PointPair": 2,
+             "Horosphere": 2, "HorosphereArc": 2, "BoundaryArc": 2,
+             "Polygon": 2}
+AFFINE_MODELS = ("Model.KLEIN", "Model.POINCARE", "Model.HALFSPACE")
+
+
+def _hyp_ctor(it, cls, args, kw):
+    """Constructor model for the hyperbolic classes: the object keeps the
+    array it is given (coordinates in an affine model gain the homogeneous
+    coordinate); the class's unit rank comes from HYP_UNITS."""
+    from ..shape import AObj, dim_add
+    if cls.name not in HYP_UNITS:
+        raise Unsupported(f"constructor {cls.name}")
+    if not args:
+        raise Unsupported(f"constructor {cls.name} without data")
+    a0 = args[0]
+    und = HYP_UNITS[cls.name]
+    if isinstance(a0, AObj):
+        o = a0.clone()
+        o.cls = cls
+        o.unit_ndims = und
+        return o
+    if not isinstance(a0, AArr):
+        raise Unsupported(f"constructor {cls.name} of {a0!r}")
+    if len(args) > 1 and isinstance(args[1], AArr) and cls.name in (
+            "Geodesic", "Segment", "PointPair", "TangentVector",
+            "Horosphere"):
+        if args[1].shape != a0.shape:
+            raise ShapeError(f"{cls.name}(p1, p2) with shapes {a0.shape} "
+                             f"and {args[1].shape}")
+        a0 = AArr(a0.shape[:-1] + (2, a0.shape[-1]))
+    model = kw.get("model", args[1] if len(args) > 1 and isinstance(
+        args[1], str) else "Model.PROJECTIVE")
+    sh = a0.shape
+    if model in AFFINE_MODELS:
+        sh = sh[:-1] + (dim_add(sh[-1], 1),)
+    if len(sh) < und:
+        raise ShapeError(f"{cls.name} built from an array of shape {sh}: "
+                         f"fewer than its {und} unit axes")
+    return AObj(cls, proj=AArr(sh), unit_ndims=und)
+
+
+def _sh5_table():
+    N, N1 = ("n",), ("n-1",)
+    P = "Model.POINCARE"
+    H = "Model.HALFSPACE"
+    K = "Model.KLEIN"
+    PR = "Model.PROJECTIVE"
+    HB = "Model.HYPERBOLOID"
+    pt = dict(cls="Point", proj=N, und=1)
+    geo = dict(cls="Geodesic", proj=(2, "n"), und=2)
+    geo3 = dict(cls="Geodesic", proj=(2, 3), und=2)
+    seg = dict(cls="Segment", proj=(2, "n"), aux=(2, "n"), und=2, aund=2)
+    seg3 = dict(cls="Segment", proj=(2, 3), aux=(2, 3), und=2, aund=2)
+    sub = dict(cls="Subspace", proj=("k", "n"), und=2)
+    sub34 = dict(cls="Subspace", proj=(3, 4), und=2)
+    horo = dict(cls="Horosphere", proj=(2, "n"), und=2)
+    arc3 = dict(cls="HorosphereArc", proj=(3, 3), und=2)
+    barc3 = dict(cls="BoundaryArc", proj=(3, 3), und=2)
+    tv = dict(cls="TangentVector", proj=(2, "n"), aux=(2, "n"), und=2,
+              aund=2)
+    circ = lambda O: (O + (2,), O, O + (2,))
+    sph = lambda O: (O + N1, O)
+    t = []
+    for m, u in ((K, N1), (P, N1), (H, N1), (PR, N), (HB, N)):
+        t.append((f"Point.coords({m})", pt, "coords", [m], {},
+                  (lambda u: lambda O: O + u)(u)))
+    t.append(("Point.distance", pt, "distance", ["@same"], {}, lambda O: O))
+    for m in (K, P, H):
+        t.append((f"Subspace.ideal_basis_coords({m})", sub,
+                  "ideal_basis_coords", [m], {}, lambda O: O + ("k", "n-1")))
+        t.append((f"Segment.endpoint_coords({m})", seg, "endpoint_coords",
+                  [m], {}, lambda O: O + (2, "n-1")))
+        t.append((f"Segment.ideal_endpoint_coords({m})", seg,
+                  "ideal_endpoint_coords", [m], {},
+                  lambda O: O + (2, "n-1")))
+        t.append((f"Horosphere.center_coords({m})", horo, "center_coords",
+                  [m], {}, lambda O: O + N1))
+        t.append((f"Horosphere.ref_coords({m})", horo, "ref_coords", [m],
+                  {}, lambda O: O + N1))
+    for m in (P, H):
+        t.append((f"Subspace.sphere_parameters({m})", sub,
+                  "sphere_parameters", [], {"model": m}, sph))
+        t.append((f"Geodesic.sphere_parameters({m})", geo,
+                  "sphere_parameters", [], {"model": m}, sph))
+        t.append((f"Segment.sphere_parameters({m})", seg,
+                  "sphere_parameters", [], {"model": m}, sph))
+        t.append((f"Horosphere.sphere_parameters({m})", horo,
+                  "sphere_parameters", [], {"model": m}, sph))
+        for deg in (True, False):
+            t.append((f"Geodesic.circle_parameters({m}, degrees={deg})",
+                      geo3, "circle_parameters", [],
+                      {"model": m, "degrees": deg}, circ))
+            t.append((f"Segment.circle_parameters({m}, degrees={deg})",
+                      seg3, "circle_parameters", [],
+                      {"model": m, "degrees": deg}, circ))
+            t.append((f"HorosphereArc.circle_parameters({m}, degrees={deg})",
+                      arc3, "circle_parameters", [],
+                      {"model": m, "degrees": deg}, circ))
+            t.append((f"BoundaryArc.circle_parameters({m}, degrees={deg})",
+                      barc3, "circle_parameters", [],
+                      {"model": m, "degrees": deg}, circ))
+    t.append(("Subspace.boundary_sphere_parameters", sub34,
+              "boundary_sphere_parameters", [], {},
+              lambda O: (O + (2,), O)))
+    t.append(("Subspace._data_with_dual", sub, "_data_with_dual", [], {},
+              lambda O: O + ("k+1", "n")))
+    t.append(("Subspace.spacelike_complement", sub, "spacelike_complement",
+              [], {}, lambda O: ("obj", O + N)))
+    t.append(("TangentVector.normalized", tv, "normalized", [], {},
+              lambda O: ("obj", O + (2, "n"))))
+    t.append(("TangentVector.angle", tv, "angle", ["@same"], {},
+              lambda O: O))
+    t.append(("TangentVector.point_along", tv, "point_along", ["@outer"],
+              {}, lambda O: ("obj", O + N)))
+    t.append(("Point.unit_tangent_towards", pt, "unit_tangent_towards",
+              ["@same"], {}, lambda O: ("obj", O + (2, "n"))))
+    return t
+
+
+def rule_sh5(ctx, only=None):
+    from ..shape import AObj, AttributeErrorSim, RaiseSim
+    import os
+    r = ctx.r
+    r.rule("SH5", "methods of the hyperbolic objects interpreted end to end "
+                  "on abstract objects (data known by symbolic shape, "
+                  "constructors modelled, run-time validity guards assumed "
+                  "to pass): for composite shapes of every rank the result "
+                  "has the composite axes of the object followed by the "
+                  "documented unit shape (coordinates: n-1 or n; centre, "
+                  "radius, angle pair; ...)")
+    core = ctx.p.module_by_rel(CORE)
+    hyp = ctx.p.module_by_rel(HYP)
+    proj = ctx.p.module_by_rel(PROJ_REL)
+    it = Interp(hyp.tree, extra_trees=(("utils", core.tree),
+                                       ("projective", proj.tree)))
+    it.project = ctx.p
+    it.rel_prefix = {HYP: "", CORE: "utils", PROJ_REL: "projective"}
+    it.ctor_model = _hyp_ctor
+    debug = os.environ.get("SA_SH5_DEBUG")
+    outers = _outer_shapes(ctx.tier)
+    total = 0
+    for label, spec, meth, args, kw, want in _sh5_table():
+        cname = spec["cls"]
+        if only is not None and f"{cname}.{meth}" not in only:
+            continue
+        cls = ctx.p.get_class(HYP, cname)
+        f = ctx.p.find_method(cls, meth)
+        if f is None:
+            raise AnalysisError(f"anchor method {cname}.{meth} has vanished")
+        r.analysed(f)
+        bad = []
+        for O in outers:
+            total += 1
+
+            def mk():
+                return AObj(cls, proj=AArr(O + spec["proj"]),
+                            aux=AArr(O + spec["aux"]) if "aux" in spec
+                            else None, unit_ndims=spec["und"],
+                            aux_ndims=spec.get("aund", 0))
+            a = [mk() if x == "@same" else AArr(O) if x == "@outer" else x
+                 for x in args]
+            try:
+                got = it.call_node(f.node, [mk()] + a, dict(kw))
+                w = want(O)
+                if w and w[0] == "obj":
+                    gs = got.proj_data.shape if isinstance(got, AObj) \
+                        and isinstance(got.proj_data, AArr) else None
+                    if gs != tuple(w[1]):
+                        raise ShapeError(f"result object data {gs}, "
+                                         f"expected {w[1]}")
+                elif w and isinstance(w[0], tuple):
+                    gs = tuple(x.shape if isinstance(x, AArr) else
+                               () if isinstance(x, AScal) else None
+                               for x in got) \
+                        if isinstance(got, tuple) else None
+                    if gs != tuple(tuple(x) for x in w):
+                        raise ShapeError(f"result shapes {gs}, expected {w}")
+                else:
+                    gs = got.shape if isinstance(got, AArr) else (
+                        () if isinstance(got, AScal) else None)
+                    if gs != tuple(w):
+                        raise ShapeError(f"result shape {gs}, expected "
+                                         f"{tuple(w)}")
+            except (ShapeError, DataDependent) as e:
+                bad.append((O, str(e)))
+            except AttributeErrorSim as e:
+                bad.append((O, f"AttributeError: {e}"))
+            except RaiseSim as e:
+                bad.append((O, f"raises {e.name} (line {e.lineno}) for a "
+                               "valid object"))
+            except Unsupported as e:
+                if debug:
+                    print("SH5 unsupported", label, O, e)
+                raise
+        inst = f"SH5:{label}"
+        if debug:
+            print("SH5", label, "bad" if bad else "ok", bad[:1])
+        if not bad:
+            r.ok("SH5", inst, loc(f, f.node), "",
+                 f"{len(outers)} composite shapes: documented result shape")
+        else:
+            O, why = bad[0]
+            r.violation(
+                "SH5", f"{f.fq}|{label}", loc(f, f.node), label,
+                f"{len(bad)} of {len(outers)} composite shapes fail; first: "
+                f"outer shape {O}: {why}. For an array of objects the "
+                "result is not the per-object result at each index",
+                instance=inst)
+    r.extra["SH5_evaluations"] = total
+    return total
